@@ -531,6 +531,39 @@ def _queue_shapes(fb, R, rec, fns, F, cons, prod):
 
 # ------------------------------------------------------------------------------------------------ Pool
 
+def _named_value(fn, nid):
+    """look through a local that only names a value: declared once with an initialiser and never written again"""
+    hops = 0
+    while hops < 4:
+        hops += 1
+        x = fn.sn(nid)
+        if x is None or x.get('k') != 'var' or x.get('vk') != 'local':
+            return nid
+        d = x['d']
+        init = None
+        for n in fn.all_nodes():
+            if n.get('k') == 'decl':
+                for v in n['vars']:
+                    if v['d'] == d and isinstance(v.get('init'), int):
+                        init = v['init']
+        if init is None:
+            return nid
+        written = False
+        for n in fn.all_nodes():
+            if n.get('k') == 'assign':
+                l = fn.sn(n['lhs'])
+                if l is not None and l.get('k') == 'var' and l.get('d') == d:
+                    written = True
+            elif n.get('k') == 'unop' and n['op'] in ('++', '--'):
+                l = fn.sn(n['sub'])
+                if l is not None and l.get('k') == 'var' and l.get('d') == d:
+                    written = True
+        if written:
+            return nid
+        nid = init
+    return nid
+
+
 def counts_from_zero_by_one(fn, d):
     """local counter: initialised with constant 0 and only ever changed by ++ (pre or post)."""
     init_ok = False
@@ -576,7 +609,7 @@ def pool_rules(fb, R):
             gs = guards_of(fn, r['id'])
             good = False
             for (c, sense, _b) in gs:
-                x = fn.sn(c)
+                x = fn.sn(_named_value(fn, c))
                 if sense and x is not None and x.get('k') == 'call' and x.get('q') == FW + '::operator()':
                     good = True
             ok = ok and good
@@ -718,15 +751,15 @@ def run(ctx):
         fb = ctx.facts(['thread'], cfg)
         queue_rules(fb, R)
         pool_rules(fb, R)
-    R.expect('Q1-access-under-lock', 8)
+    R.expect('Q1-access-under-lock', 6)  # 8 today; a bare wait loop instead of a predicate lambda or a merged accessor lowers the count
     R.expect('Q2-insert-notifies-consumers', 1)
     R.expect('Q3-remove-notifies-producers', 2)
     R.expect('Q4-consumer-predicate', 1)
     R.expect('Q4-removal-guarded-by-nonempty', 2)
     R.expect('Q5-shutdown-notify_all', 1)
     R.expect('Q6-front-before-pop', 3)
-    R.expect('Q7-push-inserts', 3)
-    R.expect('Q8-no-callout-under-lock', 10)
+    R.expect('Q7-push-inserts', 2)
+    R.expect('Q8-no-callout-under-lock', 6)
     R.expect('P2-call-return-values', 2)
     R.expect('P4-submit-future-before-push', 1)
 
